@@ -84,6 +84,7 @@ TOpen ==
               maxbuf |-> e.maxbuf, pending |-> FALSE, op |-> "", reqid |-> Zero, msgid |-> Zero,
               it |-> [start |-> <<>>, last |-> <<>>], inbox |-> <<>>,
               salts |-> {}, lastSalt |-> <<>>, gap |-> 0,
+              recent |-> <<>>,          \* octets of the most recent traffic of the session (C17: stale padding)
               walk |-> NoWalk]]
 
 (* C05 / C06: a subtree walk through the SnmpSession iterators.  wbuf = pairs the iterator still has to hand
@@ -126,6 +127,8 @@ TClose == /\ IsEvent("Close") /\ S' = [S EXCEPT ![Rec[l].sid] = Closed] /\ UNCHA
 TSetKeys ==
   /\ IsEvent("SetKeys") /\ UNCHANGED fails
   /\ LET e == Rec[l] IN
+     IF e.exc # "" THEN UNCHANGED S          \* refused (C12): the installation in force - keys, salt counter - stays as it was
+     ELSE
      S' = [S EXCEPT ![e.sid] = [@ EXCEPT !.user = e.user, !.auth = e.auth, !.priv = e.priv, !.akt = e.akt,
                                          !.akm = e.akm, !.pkt = e.pkt, !.pkm = e.pkm,
                                          !.salts = {}, !.lastSalt = <<>>, !.gap = 0]]    \* C14: uniqueness is per key installation
@@ -195,6 +198,17 @@ Occurs(x, b) == \E i \in 1..(Len(b) - Len(x) + 1) : SubSeq(b, i, i + Len(x) - 1)
 NoLeak(e) == \A i \in 1..Len(ExpectedNames(e)) :
                 Len(ExpectedNames(e)[i]) >= 5 => ~Occurs(ExpectedNames(e)[i], e.wire)
 
+(* C17: the padding behind the scoped PDU inside msgData is written for THIS message.  The library pads with zero octets;
+   any padding is accepted unless it reproduces four or more consecutive octets of what the session recently sent or
+   received (ciphertext or plaintext): bytes of the private buffer that were never written for this message. *)
+AllZero(x) == \A i \in 1..Len(x) : x[i] = 0
+DecryptOutputs(interp) == LET idx == {i \in 1..Len(interp) : interp[i].f = "decrypt"} IN
+                          IF idx = {} THEN <<>> ELSE <<interp[CHOOSE i \in idx : TRUE].out>>
+LastN(q, n) == IF Len(q) <= n THEN q ELSE SubSeq(q, Len(q) - n + 1, Len(q))
+PadOK(s, plain, padLen) ==
+  LET pad == SubSeq(plain, Len(plain) - padLen + 1, Len(plain)) IN
+  AllZero(pad) \/ Len(pad) < 4 \/ \A i \in 1..Len(s.recent) : ~Occurs(pad, s.recent[i])
+
 WireOK(s, e) ==
   LET d == Decode(s.ver, e.wire) IN
   /\ d.c = Accept                                   \* well-formed, definite, minimal (C03 / C15)
@@ -208,9 +222,10 @@ WireOK(s, e) ==
                       /\ On("C14") => (SaltOK(s, d.m) /\ NoLeak(e))
                       /\ LET plain == PlainOf(s, d.m, e.interp)
                              sp == IF plain = Missing THEN Rej("no-plaintext") ELSE DecodePlain(plain) IN
-                         On("C11") => /\ sp.c = Accept
-                                      /\ sp.padLen < Block(s)
-                                      /\ ScopedOK(s, sp.scoped, e)
+                         /\ On("C11") => /\ sp.c = Accept
+                                         /\ sp.padLen < Block(s)
+                                         /\ ScopedOK(s, sp.scoped, e)
+                         /\ (On("C17") /\ sp.c = Accept) => PadOK(s, plain, sp.padLen)
                  ELSE /\ ~d.m.enc /\ d.m.usm.priv = <<>>
                       /\ ScopedOK(s, d.m.scoped, e)
 
@@ -231,6 +246,7 @@ AfterSend(s, e) ==
                               ELSE [start |-> names[1], last |-> names[1]])
                         ELSE @,
                !.gap = 0,
+               !.recent = IF HasPriv(s) THEN LastN(@ \o <<e.wire>> \o DecryptOutputs(e.interp), 6) ELSE @,
                !.salts = IF HasPriv(s) THEN @ \cup {d.m.usm.priv} ELSE @,
                !.lastSalt = IF HasPriv(s) THEN d.m.usm.priv ELSE @]
 
@@ -278,7 +294,8 @@ TSend ==
 TInject ==
   /\ IsEvent("Inject") /\ UNCHANGED fails
   /\ LET e == Rec[l] IN
-     S' = [S EXCEPT ![e.sid] = [@ EXCEPT !.inbox = Append(@, [b |-> e.dgram, interp |-> e.interp])]]
+     S' = [S EXCEPT ![e.sid] = [@ EXCEPT !.inbox = Append(@, [b |-> e.dgram, interp |-> e.interp]),
+                                         !.recent = IF HasPriv(S[e.sid]) THEN LastN(@ \o <<e.dgram>> \o DecryptOutputs(e.interp), 6) ELSE @]]
 
 -----------------------------------------------------------------------------
 (* Abstraction of a decoded datagram to the alphabet of Session.tla, relative to session s *)
